@@ -8,12 +8,14 @@ All statements are for EVERY `c : CryptoOps` with `CryptoLaws c` (every key, non
 Helper lemmas: SpsdkVerif/Proofs/Sb2Cmd.lean, Sb2Section.lean, Sb2Image.lean.
 -/
 import SpsdkVerif.Proofs.Sb2Image
+import SpsdkVerif.Proofs.Sb2Sig
+import SpsdkVerif.Proofs.Sb2Parse
 import SpsdkVerif.Proofs.ExecLaws
 
 namespace SpsdkVerif.Properties.C04
 open SpsdkVerif SpsdkVerif.Sb2 SpsdkVerif.Sb2.Rom
 open SpsdkVerif.Misc (Bytes)
-open SpsdkVerif.Crypto (CryptoOps CryptoLaws Break)
+open SpsdkVerif.Crypto (CryptoOps CryptoLaws Break SigAlg PrivKey Rand)
 open SpsdkVerif.Generated
 
 /-! ## 1. Generated = Spec: the constants of the current SPSDK sources are the ones the ROM model is written with
@@ -147,9 +149,72 @@ theorem section_roundtrip (h : CryptoLaws c) (dek mac nonce pre post : Bytes) (s
 theorem rom_accepts_v21 (h : CryptoLaws c) (cfg : Cfg) (wf : Spec.WF21 cfg) :
     Rom.romV21 c cfg.kek (buildV21 c cfg) = .ok (Spec.expected21 cfg) := romV21_buildV21 h cfg wf
 
+/- Full-strength statement (FALSE on the current code, known finding C04-load-count-padded): the ROM reports
+   `expected21Exact cfg` (every LOAD with exactly the given bytes) for every well-formed `cfg`.  Refuting example:
+   one section with `.load 0 [1] 0 0` — the file says 16 bytes, the ROM loads `1 :: 15 zeros`.
+   Proved: it is exact whenever every LOAD's data is a multiple of 16 bytes long (and `rom_load_prefix` says what is
+   written otherwise: the data followed by fewer than 16 zero bytes). -/
+theorem rom_accepts_v21_exact_partial (h : CryptoLaws c) (cfg : Cfg) (wf : Spec.WF21 cfg) (hal : loadsAligned cfg) :
+    Rom.romV21 c cfg.kek (buildV21 c cfg) = .ok (expected21Exact cfg) := by
+  rw [← expected21_exact cfg hal]; exact romV21_buildV21 h cfg wf
+
+theorem rom_accepts_v20_exact_partial (h : CryptoLaws c) (cfg : Cfg) (signed : Bool) (wf : Spec.WF20 cfg signed)
+    (hal : loadsAligned cfg) :
+    Rom.romV20 c cfg.kek (buildV20 c cfg signed) = .ok (expected20Exact cfg signed) := by
+  rw [← expected20_exact cfg signed hal]; exact romV20_buildV20 h cfg signed wf
+
 /-- SB 2.0, signed (certificate section, signature at the end) and unsigned -/
 theorem rom_accepts_v20 (h : CryptoLaws c) (cfg : Cfg) (signed : Bool) (wf : Spec.WF20 cfg signed) :
     Rom.romV20 c cfg.kek (buildV20 c cfg signed) = .ok (Spec.expected20 cfg signed) := romV20_buildV20 h cfg signed wf
+
+/-! ### SPSDK's own parser (Model/Sb2Parse.lean: `BootImageV21.parse` / `BootImageV20.parse` as the code is)
+
+    The certificate block is opaque: `cp` stands for `CertBlockV1.parse`, `ci` for what the image parser uses of its result
+    (`raw_size`, `signature_size`, `verify_data`).  Hypotheses: `cp` recognises the block that was put into the file, with
+    its length and signature size, and `verify_data` accepts the signer's signature over the signed range (that is
+    `CryptoLaws.verify_sign` for the real pair; C02/C03 own the certificate block).  The KEK has a legal AES length and the
+    version numbers are BCD (otherwise `BcdVersion3` refuses them — the builder does, too). -/
+
+/-- `BootSectionV2.parse` on a section built for its position: uid, effective MAC count, the commands in canonical
+    form, and the counter has advanced by the section's length in blocks -/
+theorem parser_section_roundtrip (h : CryptoLaws c) (dek mac nonce pre post : Bytes) (s : Section)
+    (wf : Spec.WFsection s) (hpre : pre.length % 16 = 0) :
+    Parse.parseSection c dek mac nonce
+        (pre ++ buildSection c dek mac nonce (nonceCtr nonce + pre.length / 16) s ++ post) pre.length
+        (nonceCtr nonce + pre.length / 16)
+      = .ok (Parse.parsedSection s, nonceCtr nonce + pre.length / 16 + Spec.sectionLen s / 16) :=
+  parseSection_buildSection h dek mac nonce pre post s wf hpre
+
+/-- parser_agrees (SB 2.1): SPSDK's parser returns what was given to the builder — flags, versions, build number,
+    timestamp, nonce, DEK/MAC key, EVERY section (uid, MAC count) and every command -/
+theorem parser_agrees_v21 (h : CryptoLaws c) (cfg : Cfg) (wf : Spec.WF21 cfg)
+    (hk : Parse.kekLenOk cfg.kek = true)
+    (hpv : Parse.bcdVersionOk cfg.productVersion) (hcv : Parse.bcdVersionOk cfg.componentVersion)
+    (cp : Parse.CertParser) (ci : Parse.CertInfo)
+    (hcp : ∀ rest, cp (cfg.certBlock ++ rest) = some ci)
+    (hraw : ci.rawSize = cfg.certBlock.length) (hsz : ci.sigSize = cfg.signature.length)
+    (hver : ci.verify cfg.signature (cfg.signed21 c) = true) :
+    Parse.parseV21 c cp cfg.kek (buildV21 c cfg) = .ok (Parse.parsedOf21 cfg) :=
+  parseV21_buildV21 h cfg wf hk hpv hcv cp ci hcp hraw hsz hver
+
+/-- parser_agrees (SB 2.0, signed and unsigned; section ids must be distinct — `add_boot_section` refuses duplicates) -/
+theorem parser_agrees_v20 (h : CryptoLaws c) (cfg : Cfg) (signed : Bool) (wf : Spec.WF20 cfg signed)
+    (hk : Parse.kekLenOk cfg.kek = true)
+    (hpv : Parse.bcdVersionOk cfg.productVersion) (hcv : Parse.bcdVersionOk cfg.componentVersion)
+    (hu : (cfg.sections.map (·.uid)).Nodup)
+    (cp : Parse.CertParser) (ci : Parse.CertInfo)
+    (hcp : signed = true → ∀ rest, cp (cfg.certBlock ++ rest) = some ci)
+    (hraw : signed = true → ci.rawSize = cfg.certBlock.length)
+    (hver : signed = true → ci.verify cfg.signature (cfg.body20 c true) = true) :
+    Parse.parseV20 c cp cfg.kek (buildV20 c cfg signed) = .ok (Parse.parsedOf20 cfg signed) :=
+  parseV20_buildV20 h cfg signed wf hk hpv hcv hu cp ci hcp hraw hver
+
+/-- parser and ROM model see the same commands: the parsed object of a well-formed command, exported again, is decoded
+    by the ROM model to the same action as the original -/
+theorem parser_rom_consistent (x : Cmd) (wf : Spec.WFcmd x) (rest : Bytes) :
+    decodeCmd (encodeCmd x ++ rest) = .ok (x.canon, (encodeCmd x).length) ∧
+    Rom.readCmd (encodeCmd x ++ rest) = .ok (Spec.view x, (encodeCmd x).length) :=
+  ⟨cmd_roundtrip x wf rest, rom_cmd_roundtrip x wf rest⟩
 
 /-- the header describes the file: image size, first boot tag, certificate block, key blob, header size -/
 theorem header_describes_file (h : CryptoLaws c) (cfg : Cfg) (wf : Spec.WF21 cfg) :
@@ -187,6 +252,18 @@ theorem wrong_kek_v20 (h : CryptoLaws c) (cfg : Cfg) (signed : Bool) (wf : Spec.
     (hk : kek' ≠ cfg.kek) :
     Rom.romV20 c kek' (buildV20 c cfg signed) = .error .badKeyBlob ∨ Break c := Sb2.wrong_kek_v20 h cfg signed wf kek' hk
 
+/-- the property's last sentence, for SPSDK's parser: with a different KEK it raises (whatever the certificate
+    parser does) — unless RFC 3394 integrity is broken -/
+theorem parser_wrong_kek (h : CryptoLaws c) (cfg : Cfg) (wf : Spec.WF21 cfg) (cp : Parse.CertParser)
+    (kek' : Bytes) (hk : kek' ≠ cfg.kek) :
+    (∃ e, Parse.parseV21 c cp kek' (buildV21 c cfg) = .error e) ∨ Break c :=
+  parseV21_wrong_kek h cfg wf cp kek' hk
+
+theorem parser_wrong_kek_v20 (h : CryptoLaws c) (cfg : Cfg) (signed : Bool) (wf : Spec.WF20 cfg signed)
+    (cp : Parse.CertParser) (kek' : Bytes) (hk : kek' ≠ cfg.kek) :
+    (∃ e, Parse.parseV20 c cp kek' (buildV20 c cfg signed) = .error e) ∨ Break c :=
+  parseV20_wrong_kek h cfg signed wf cp kek' hk
+
 /-- a boot section whose ciphertext body was replaced (same length) is refused — or two different byte strings with
     the same HMAC-SHA256 under the MAC key are exhibited; `S` = the section as built for its position -/
 theorem section_body_tampered (h : CryptoLaws c) (dek mac nonce pre post : Bytes) (s : Section)
@@ -218,9 +295,27 @@ theorem section_macs_tampered (h : CryptoLaws c) (dek mac nonce pre post : Bytes
         pre.length = .error .badSectionMac :=
   readSection_macs_tampered h dek mac nonce pre post s wf hpre macs' hlen hne
 
-/- Not stated: "a byte changed in the signed range is detected".  That is the signature's job; the ROM model only emits
-   the obligation (range, signature, certificate block), which the harness verifies with `cryptography`, and the executable
-   `CryptoOps` instance has placeholder signatures — a `Break.sigForgery` reduction about it would say nothing about RSA. -/
+/-- Signature coverage (SB 2.1).  The signature is the signer's output for the signed range of the built file.  Change the
+    file anywhere inside that range (same length): whatever prefix length `n` a loader or parser derives from the tampered
+    header, the original signature verifying over that prefix exhibits a signature forgery.  (Injectivity of the range
+    extraction: `take_ne_of_diff`.)  With `rom_accepts_v21`/`signed_range_v21` this says: the ROM's obligation
+    `(signedLen, signature)` cannot be met by a file tampered inside the signed range while the signature bytes are the
+    original ones.  A *different* byte string in the signature field that verifies is an existential forgery of the
+    signature scheme itself and is outside `Break.sigForgery`. -/
+theorem signed_range_tamper (h : CryptoLaws c) (cfg : Cfg) (wf : Spec.WF21 cfg) (alg : SigAlg) (sk : PrivKey) (r : Rand)
+    (hsig : cfg.signature = c.sign alg sk (cfg.signed21 c) r)
+    (file' : Bytes) (hl : file'.length = (buildV21 c cfg).length)
+    (i : Nat) (hi : i < (Spec.expected21 cfg).signedLen) (hd : file'[i]? ≠ (buildV21 c cfg)[i]?)
+    (n : Nat) (hv : c.verify alg (c.pubOf sk) (file'.take n) cfg.signature = true) : Break c :=
+  signed_range_tamper_v21 h cfg wf alg sk r hsig file' hl i hi hd n hv
+
+/-- the same for signed SB 2.0, where the signed message is everything in front of the signature -/
+theorem signed_range_tamper_v20 (h : CryptoLaws c) (cfg : Cfg) (wf : Spec.WF20 cfg true) (alg : SigAlg) (sk : PrivKey) (r : Rand)
+    (hsig : cfg.signature = c.sign alg sk (cfg.body20 c true) r)
+    (file' : Bytes) (hl : file'.length = (buildV20 c cfg true).length)
+    (i : Nat) (hi : i < Spec.bodyLen20 cfg true) (hd : file'[i]? ≠ (buildV20 c cfg true)[i]?)
+    (n : Nat) (hv : c.verify alg (c.pubOf sk) (file'.take n) cfg.signature = true) : Break c :=
+  Sb2.signed_range_tamper_v20 h cfg wf alg sk r hsig file' hl i hi hd n hv
 
 /-! ## 6. The compiled instance: the driver's `execOps` (FIPS-197 AES, FIPS-180 SHA-256 written in Lean) satisfies the
     laws (Proofs/ExecLaws.lean), so the theorems hold for exactly the functions the harness runs natively -/
@@ -250,6 +345,10 @@ def demoCfg : Cfg :=
     buildNumber := 7, flags := 0x8008, certBlock := demoCert, signature := List.replicate 256 0xAA,
     sections := [⟨0, 2, demoCmds⟩, ⟨7, 0, [.reset]⟩] }
 
+example : Parse.kekLenOk demoCfg.kek = true ∧ Parse.bcdVersionOk demoCfg.productVersion ∧ Parse.bcdVersionOk demoCfg.componentVersion ∧
+    (demoCfg.sections.map (·.uid)).Nodup := by
+  refine ⟨by decide, ⟨by decide, by decide, by decide⟩, ⟨by decide, by decide, by decide⟩, by decide⟩
+example : ((Parse.parsedOf21 demoCfg).sections.map (fun s => (s.uid, s.hmacCount, s.cmds.length))) = [(0, 2, 12), (7, 1, 1)] := by decide
 example : Spec.WF21 demoCfg := by decide +kernel
 example : Spec.WF20 demoCfg true ∧ Spec.WF20 demoCfg false := by decide +kernel
 example : ∀ x ∈ demoCmds, Spec.WFcmd x := by decide
